@@ -299,6 +299,7 @@ class NativeMemSlave:
         self.ncmd = 0
         self.out = 0
         self.nwlost = 0
+        self.nwdone = 0
         self.nrlost = 0
         self.log = []           # (kind, addr, data, we)
 
@@ -343,6 +344,7 @@ class NativeMemSlave:
                     old = (old & ~(0xFF << (8 * b))) | (data & (0xFF << (8 * b)))
             self.mem[a] = old
             self.out -= 1
+            self.nwdone += 1
             self.log.append(("w", a, data, we))
             sim.ev(self.name, "wdata", a, data, we, valid)
         if self.rv:
